@@ -64,9 +64,20 @@ def hist_mask(rng):
     focus = fill(rng, c, h)
     for _ in range(rng.randint(1, 4)):
         h.append(gen.upd_line(rng, mk, focus=focus))
+    carry = None
+    if mk_kind == 'wide' and mk.nbytes >= 2 and rng.random() < 0.5:
+        # a mask row whose bytes add up to 256 (bits 7 and 15), on a pixel the map holds: set membership, not a sum
+        apix = [int(x) for ln in h if ln.startswith('upd a ') and 'none=1' not in ln
+                for t in ln.split() if t.startswith('pix=') and t != 'pix=_' for x in t[4:].split(',')]
+        if apix:
+            carry = rng.choice(apix)
+            row = [128, 128] + [0] * (mk.nbytes - 2)
+            h.append('upd k op=replace pix=%d val=b%s' % (carry, '.'.join(map(str, row))))
     for _ in range(rng.randint(1, 3)):
         arg = ''
-        if mk_kind == 'int':
+        if carry is not None:
+            arg = rng.choice(['', ' bitarr=7,15', ' bitarr=15,7,0'])
+        elif mk_kind == 'int':
             if rng.random() < 0.6:
                 arg = ' bits=%d' % rng.choice([1, 2, 3, 4, 255, 128])
         else:
